@@ -40,6 +40,8 @@ def required_cells(tier):
         f, body = (a, b) if a in gen.FLAT else (b, a)
         kinds = RESULTS.get(f) or (("None", "P", "S", "PG") if True else ())
         for r in kinds:
+            if q and f == "PL" and body == "PG" and r == "P":
+                continue       # a plane touching a polygon in one vertex only is rare in 16 k cases (2-10 per run): reported, not required
             req["pair:%s,%s->%s" % (a, b, r)] = 2 if q else 20
     for s in ("point-vertex", "point-edge", "point-interior", "point-face", "point-outside", "point-in-plane-outside",
               "point-off-plane", "carrier-along-edge", "carrier-in-face-plane", "carrier-through-vertex", "carrier-generic",
